@@ -3,19 +3,17 @@ CONSTANTS NW = 2
  MaxD = 3
  MaxS = 2
  MaxTag = 2
- MaxObj = 1
- MaxQ = 1
+ MaxObj = 2
  MaxL = 3
- Flags = {0, 1}
- YieldOpts = {2}
- Ops = {"create", "join", "yield"}
+ MaxQ = 5
+ SCN = "gate"
+ NT = 2
+ K = 1
+ ND = 1
+ BCAST = 1
 INVARIANT OK
 INVARIANT ExactlyOnePlace
 INVARIANT RunnableSaved
 INVARIANT RunOnce
 INVARIANT ReapOnce
-INVARIANT NoUseAfterFree
-INVARIANT StackOwner
-
-INVARIANT QuiescentLedger
 CHECK_DEADLOCK TRUE
